@@ -188,6 +188,18 @@ func init() {
 				n := 2*(4<<20+65536) - 100
 				emit(rtCase{Space: "codec", P: Params{"BWT", "NONE", 4<<20 + 65536, 2, 0, int64(n), false, false}, Shape: "text", Len: n, DecJobs: dj})
 			}
+			// incompressible blocks above the 256 KiB floor of the task buffers: entropy coders that EXPAND
+			// the block (table headers, escape overhead) by more than the 1/8 the encoder allows for
+			for _, e := range allEntropies {
+				for _, t := range []string{"NONE", "LZ", "TEXT+UTF"} {
+					for _, bsz := range pick(c, []uint{262144}, []uint{262144, 1 << 20, 4 << 20}) {
+						if t != "NONE" && bsz != 262144 {
+							continue
+						}
+						emit(rtCase{Space: "codec", P: Params{t, e, bsz, 2, 32, -1, false, false}, Shape: "random", Len: int(bsz) + 1000, DecJobs: 1})
+					}
+				}
+			}
 			// block sizes that are not powers of two, and last blocks whose length sits on the boundaries of
 			// the 1/2/3-byte block length field (255/256, 65535/65536)
 			for _, cd := range [][2]string{{"NONE", "NONE"}, {"LZ", "HUFFMAN"}} {
